@@ -38,6 +38,8 @@ def plan(tier, seed):
     n = 4000 if tier == "quick" else 150000
     for i in range(NSH):
         jobs.append({"name": "rand%02d" % i, "spec": {"kind": "rand", "n": n // NSH, "big": i < 2 and tier != "quick"}})
+    for i in range(2 if tier == "quick" else 8):
+        jobs.append({"name": "threads%02d" % i, "spec": {"kind": "threads", "rounds": 4 if tier == "quick" else 60}})
     return jobs
 
 
@@ -45,7 +47,7 @@ def mandatory_bins(tier):
     b = ["len_mod16_%d" % i for i in range(16)] + ["len_mod40_%d" % i for i in range(40)]
     b += ["trailing_zeros_%d" % z for z in (0, 1, 2, 15, 16, 17)]
     b += ["zero_components", "zero_comments", "io_stream", "io_path", "mac_on", "mac_off", "default_key", "key_ends_00", "declared_lt_len", "declared_1",
-          "desc_210_bytes", "desc_211_bytes_refused", "tag_order_not_sorted", "crlf_in_path_file", "all_zero_payload", "cross_mode_path_written_stream_read", "rewrite_after_in_place_mutation", "enc_tag_other_value_on_plain_component", "stream_positioned_after_other_content", "comment_with_unicode_line_boundary_character", "same_component_object_listed_twice"]
+          "desc_210_bytes", "desc_211_bytes_refused", "tag_order_not_sorted", "crlf_in_path_file", "all_zero_payload", "cross_mode_path_written_stream_read", "rewrite_after_in_place_mutation", "enc_tag_other_value_on_plain_component", "stream_positioned_after_other_content", "comment_with_unicode_line_boundary_character", "same_component_object_listed_twice", "write_and_read_by_concurrent_threads"]
     return b
 
 
@@ -262,6 +264,48 @@ def run_shard(spec, ctx):
     rng = ctx.rng
     scratch = tempfile.mkdtemp(prefix="c01-", dir=os.environ.get("VERIF_SCRATCH"))
     try:
+        if spec["kind"] == "threads":
+            # several threads writing and reading their own files at the same time (one session key for all in half of the rounds),
+            # interleaved at every source line of the reader / writer / cipher adapter code
+            from ..sched import yieldrun
+
+            BFm = ns.bf3file
+            codes = yieldrun.code_objects_of(BFm, BFm.Bf3File, BFm.Bf3Component, ns.bytes_reader.BytesReader, ns.plugin.AES128Proxy, ns.aes.AESModeOfOperationCBC)
+            total = 0
+            for rnd in range(spec["rounds"]):
+                nthreads = (2, 3)[rnd % 2]
+                cases = [G.gen_case(rng, ncomp=rng.choice((1, 2, 3))) for _ in range(nthreads)]
+                keys = [rng.randbytes(16) for _ in range(nthreads)]
+                if rnd % 4 >= 2:
+                    keys = [keys[0]] * nthreads
+
+                def body(i):
+                    def run():
+                        buf = io.StringIO()
+                        G.build_real(ns, cases[i]).write_file(buf, keys[i])
+                        back = BFm.Bf3File.read_file(io.StringIO(buf.getvalue()), True, keys[i])
+                        return G.diff_file(back, cases[i])
+                    return run
+
+                res, y = yieldrun.run_concurrently([body(i) for i in range(nthreads)], codes, sleep=0.0001, max_yields=25000)
+                total += y
+                ctx.ev(nthreads)
+                ctx.bin("write_and_read_by_concurrent_threads")
+                ctx.mon("write_file", nthreads)
+                ctx.mon("read_file", nthreads)
+                ctx.distinct("threads", rnd, [c_.digest_parts() for c_ in cases], keys)
+                for i, r in enumerate(res):
+                    rp = {"case": cases[i].to_json(), "key": keys[i].hex(), "concurrent": True}
+                    if r is None:
+                        ctx.note("thread_still_running_after_timeout(inconclusive)")
+                    elif r[0] == "exc":
+                        if not any(len(c.desc_bytes()) > 210 for c in cases[i].comps):
+                            ctx.violation("reader_rejects_file_written_by_writer", {"exc": r[1], "how": "concurrent_threads"}, rp)
+                    elif r[1]:
+                        ctx.violation("read_back_differs:" + r[1][0].split("[")[0], {"diff": r[1], "how": "concurrent_threads"}, rp)
+            ctx.mon("line_yields_injected", total)
+            ctx.sample({"kind": "threads", "rounds": spec["rounds"], "line_yields": total})
+            return
         if spec["kind"] == "directed":
             for i, case in enumerate(directed_cases(rng)):
                 key = (bytes(16), G.gen_key(rng))[i % 2]
